@@ -1,7 +1,8 @@
 (* C11 — A compiled trust schema matches exactly the names its source text describes.
    Only statements, [exact]s and Print Assumptions live here. *)
 From NDN Require Import Base.Prelude Base.Text Model.LvsAst Model.LvsChecker Model.LvsCompiler Spec.LvsSem Spec.LvsTree.
-From NDN Require Import Proofs.LvsMachine Proofs.LvsTreePaths Proofs.LvsCheckerThms Proofs.LvsSanity.
+From NDN Require Import Proofs.LvsMachine Proofs.LvsTreePaths Proofs.LvsCheckerThms Proofs.LvsSanity
+  Proofs.LvsFlatten Proofs.LvsGenTree Proofs.LvsCompileTree Proofs.LvsCompileThms.
 Local Open Scope N_scope.
 
 (* Checker.match on any model that passes the loader = "there is a root-to-node path whose edges are
@@ -13,3 +14,37 @@ Theorem C11_match_tree ufn m (Hs : sane m) fuel name nm l :
     exists n c, tree_match ufn m nm [] n c /\ node_rule_names m n = Ok rs /\ cn = context_to_name m c.
 Proof. exact (lvs_match_spec ufn m Hs fuel name nm l). Qed.
 Print Assumptions C11_match_tree.
+
+(* ---- the full statement (DESIGN section 3, C11) ---------------------------------------------------------
+   What is proved of it is [C11_match_iff_partial] below; the missing link is named there. *)
+Definition C11_match_iff_statement : Prop :=
+  forall ufn (S : lvsfile) m, static_ok S = true -> compile S = Ok m ->
+  forall fuel name nm l, strip_digest name = Ok nm -> (match_cost m nm <= fuel)%nat -> lvs_match ufn m fuel name = Ok l ->
+  forall r env, not_pseudo r ->
+    (exists rs, In (rs, map (fun pv => (Some (fst pv), snd pv)) env) l /\ In r rs) <-> sem ufn S r name env.
+
+Definition ufn_t := ident -> option (bytes -> list (option bytes) -> res bool).
+
+(* the model produced from a schema's numbered chains passes the loader *)
+Theorem C11_compiled_sane (ufn : ufn_t) S chains st m :
+  chains_of S = Ok (chains, st) -> compile S = Ok m -> chains_ok (N.of_nat (length (ns_named st))) chains -> sane m.
+Proof. exact (compile_sane ufn S chains st m). Qed.
+Print Assumptions C11_compiled_sane.
+
+(* PARTIAL: from the numbered, replicated rule chains ([chains_of S]: rule references inlined, one chain per
+   alternative constraint set, patterns numbered) to the answers of Checker.match on the compiled model
+   -- tree generation with edge merging, preorder flattening, signer resolution, the iterative matching machine.
+   [chain_sem] reads ONE chain on its own: literals equal; a named pattern is constrained at its first occurrence
+   and must equal its binding afterwards; a temporary pattern is constrained at every occurrence and binds nothing.
+   Missing for [C11_match_iff_statement]: (a) [chains_of S] satisfies [chains_ok] and (b) the chains of rule r
+   satisfy [chain_sem] exactly when [sem S r] holds (pattern numbering + _replicate_rules); both are covered on
+   every run by the correspondence check and by the [sem] oracle evaluated on the implementation's answers. *)
+Theorem C11_match_iff_partial (ufn : ufn_t) S chains st m :
+  chains_of S = Ok (chains, st) -> compile S = Ok m -> chains_ok (N.of_nat (length (ns_named st))) chains ->
+  forall fuel name nm l r,
+    strip_digest name = Ok nm -> (match_cost m nm <= fuel)%nat -> lvs_match ufn m fuel name = Ok l -> not_pseudo r ->
+    forall c', (exists rs, In (rs, context_to_name m c') l /\ In r rs /\
+                           exists n, tree_match ufn m nm [] n c' /\ node_rule_names m n = Ok rs) <->
+               (exists rc, In rc chains /\ ch_id rc = r /\ chain_sem_from ufn 0 rc nm [] c').
+Proof. exact (match_chains ufn S chains st m). Qed.
+Print Assumptions C11_match_iff_partial.
